@@ -10,6 +10,7 @@ import (
 	"net/netip"
 	"reflect"
 	"time"
+	"unsafe"
 
 	"github.com/ClickHouse/ch-go/proto"
 	"github.com/google/uuid"
@@ -427,10 +428,9 @@ func init() {
 	regCmp(leafDef[string]{typ: "JSON", kind: "ColJSONStr", mk: func() proto.ColumnOf[string] { return new(proto.ColJSONStr) }, to: strTo, from: strFrom})
 	regCmp(leafDef[bool]{typ: "Bool", kind: "ColBool", mk: func() proto.ColumnOf[bool] { return new(proto.ColBool) },
 		to: func(v ref.Val) bool { return v.B[0] != 0 }, from: func(x bool) ref.Val {
-			if x {
-				return ref.Leaf([]byte{1})
-			}
-			return ref.Leaf([]byte{0})
+			// the byte the bool is made of: a column that accepted a byte other than 0/1 hands out
+			// a bool that is neither true nor false
+			return ref.Leaf([]byte{*(*byte)(unsafe.Pointer(&x))})
 		}})
 	regCmp(leafDef[uuid.UUID]{typ: "UUID", kind: "ColUUID", mk: func() proto.ColumnOf[uuid.UUID] { return new(proto.ColUUID) },
 		to:   func(v ref.Val) uuid.UUID { var u uuid.UUID; copy(u[:], swapHalves(v.B)); return u },
